@@ -104,7 +104,15 @@ func c14Check(c c14Case) vfResult {
 				if wantParent != nil && l.Parent() != wantParent {
 					return fmt.Errorf("after step %d: Lookup(%q).Parent() is not the root node", step, name)
 				}
-				if !l.Is(name) {
+				// (Is speaks about well-formed media types; a name with control characters is found by
+				// Lookup, classified under and reported, but is outside what Is promises)
+				wellFormed := true
+				for i := 0; i < len(name); i++ {
+					if name[i] < 0x20 || name[i] == 0x7f {
+						wellFormed = false
+					}
+				}
+				if wellFormed && !l.Is(name) {
 					return fmt.Errorf("after step %d: Lookup(%q).Is(%q) is false", step, name, name)
 				}
 			}
@@ -309,6 +317,17 @@ func c14Gen(t *rapid.T) c14Case {
 		}
 		if rapid.IntRange(0, 3).Draw(t, "op") > 0 {
 			e := vfGenExt(t, len(exts), exts)
+			if rapid.IntRange(0, 14).Draw(t, "ctlname") == 0 {
+				old := e.Mime
+				e.Mime += rapid.SampledFrom([]string{"\r", "\n", "\r\n", ";\tv=1", "\x7f", " "}).Draw(t, "ctl")
+				kept := e.Aliases[:0:0]
+				for _, al := range e.Aliases {
+					if al != old {
+						kept = append(kept, al)
+					}
+				}
+				e.Aliases = kept
+			}
 			exts = append(exts, e)
 			c.Steps = append(c.Steps, c14Step{Op: "extend", Ext: &e})
 		} else {
